@@ -586,6 +586,10 @@ public:
       for (basic_block_label_t prev : prev_nodes) {
         new_pre |= m_iterator->get_post(prev);
       }
+      if (m_assumptions && !m_assumptions->empty()) {
+        // the assumption at the head holds at every iteration
+        new_pre = strengthen(head, new_pre);
+      }
       crab::CrabStats::stop("Fixpo.join_predecessors");
       crab::CrabStats::resume("Fixpo.check_fixpoint");
       bool fixpoint_reached = new_pre <= pre;
@@ -622,6 +626,10 @@ public:
       }
       for (basic_block_label_t prev : prev_nodes) {
         new_pre |= m_iterator->get_post(prev);
+      }
+      if (m_assumptions && !m_assumptions->empty()) {
+        // the assumption at the head holds at every iteration
+        new_pre = strengthen(head, new_pre);
       }
       crab::CrabStats::stop("Fixpo.join_predecessors");
       crab::CrabStats::resume("Fixpo.check_fixpoint");
